@@ -177,13 +177,15 @@ def vMapm (s : VSpec) (body : SExpr) (out : Option String) (d : DS) : R DS :=
 /-- the viral attributes of the result: those of either operand. -/
 def eitherViral (s : VSpec) (x y : DS) : VSpec := s.filter (fun p => x.meas.contains p.1 || y.meas.contains p.1)
 
-/-- viral values of a matched pair (`l` = row of the LEFT operand `x`): the rule where both operands carry the
-attribute, the one value otherwise. -/
+/-- viral value of a matched pair for one attribute (`l` = row of the LEFT operand `x`): the rule where both operands
+carry the attribute, the one value otherwise. -/
+def pairVal (x y : DS) (l r : Row) (p : String × Rule) : R Value :=
+  if x.meas.contains p.1 && y.meas.contains p.1 then pair p.2 (l.get p.1) (r.get p.1)
+  else if x.meas.contains p.1 then .ok (l.get p.1)
+  else .ok (r.get p.1)
+
 def pairVals (s : VSpec) (x y : DS) (l r : Row) : R (List (String × Value)) :=
-  (eitherViral s x y).mapM (fun p =>
-    if x.meas.contains p.1 && y.meas.contains p.1 then (pair p.2 (l.get p.1) (r.get p.1)).map (fun v => (p.1, v))
-    else if x.meas.contains p.1 then .ok (p.1, l.get p.1)
-    else .ok (p.1, r.get p.1))
+  (eitherViral s x y).mapM (fun p => (pairVal x y l r p).map (fun v => (p.1, v)))
 
 def vZipRow (s : VSpec) (x y : DS) (bigIsLeft : Bool) (ms : List String) (body : SExpr) (out : Option String)
     (rb : Row) : R (Option Row) :=
